@@ -1,4 +1,5 @@
 """C16 — colour conversions are mutually inverse, total and in range."""
+import json
 import os
 
 import vf
@@ -19,6 +20,22 @@ def run(tier):
     # also in a plain release build (no debug assertions, wrapping arithmetic): what a user ships
     plain = vf.build_harness("plain")
     vf.exec_and_validate(chk, plain, "color", "TV_Color", cases, jvms=10, what="observation (plain release build)")
+    # the float conversions under the other float backends (the hue is wrapped by the backend's
+    # rem_euclid): built-in fallback without any fp feature, libm, micromath
+    probe = os.path.join(vf.HARNESS, "floatprobe")
+    bk = os.path.join(d, "color_backends.ndjson")
+    with open(bk, "w") as fw:
+        for name, feats in (("none", []), ("libm", ["libm"]), ("mm", ["mm"])):
+            vf._built.pop(("release", probe, tuple(feats)), None)
+            pb = vf.build_harness("release", crate=probe, features=feats, bin_name="floatprobe")
+            fw.write(vf.run_harness(pb, [name, vf.seed(), "color" if tier == "quick" else "color-thorough"]))
+    nrec, nev, badb = vf.validate_trace("TV_Color", bk, jvms=6)
+    vf.log("[tv] float conversions under the fallback / libm / mm backends: %d observations judged by TV_Color: %d rejected" % (nrec, len(badb)))
+    chk.cov["traces_validated_against_impl"] += nrec
+    chk.cov["evaluations"] += nev
+    for b in badb:
+        chk.violation(b["key"], {"sub": "floatprobe-color", "record": b["record"]},
+                      what="observation %s rejected by TV_Color: %s" % (b["key"], json.dumps(b["record"])[:300]))
     chk.cov["distinct_nontrivial"] = chk.cov["traces_validated_against_impl"]
     chk.cov["rule"] = ("8-bit: rows (r,g) x all b of rgb->hsl->rgb and rows (h,s) x all l of hsl->rgb (quick: a 68x68 sub-"
                        "lattice of rows, thorough: all 2^24 both ways), aggregated per row (max error, panics, gray laws); "
@@ -29,3 +46,11 @@ def run(tier):
     chk.assumptions = ["MC_Color transcribes the 8-bit algorithms (implementation-shaped): it proves the bound for the "
                        "algorithm as specified; the real code is judged at property level only"]
     return chk.finish()
+
+
+def replay(path):
+    obj = json.load(open(path))
+    if obj.get("sub") == "floatprobe-color":
+        # the "case" is a feature build of the probe: re-run the whole quick check
+        return run("quick")
+    return vf.replay("C16", path)
